@@ -32,6 +32,8 @@ def key_fn(case, obs, verdict):
         return "%s@prop:confutil.PropertyTagResolver" % verdict.split(" ")[0].replace("BAD:", "")
     if f[0] == "env":
         return "%s@env:confutil.EnvTagResolver" % verdict.split(" ")[0].replace("BAD:", "")
+    if f[0] == "cast":
+        return "%s@cast:confutil.castInt(%s)" % (verdict.split(" ")[0].replace("BAD:", ""), f[1])
     if f[0] == "app":
         return "%s:%s@app:%s(%s)" % (verdict.split(" ")[0].replace("BAD:", ""), f[3], _unhex(f[1]), _unhex(f[2]))
     off = 3 if f[0] == "comp" else (2 if f[0] == "typed" else 1)
@@ -64,6 +66,9 @@ def what_fn(case, obs, verdict):
     if f[0] == "env":
         return "%s (environment %s, asked %r; the implementation answered %s)" % (
             verdict.replace("BAD:", ""), f[1][:120], _unhex(f[2]), obs[:60])
+    if f[0] == "cast":
+        return "%s (an option of type %s written ${env:VAR}, VAR=%r; the implementation answered %s)" % (
+            verdict.replace("BAD:", ""), f[1], _unhex(f[2]), obs[:60])
     if f[0] == "app":
         return "%s (component %s %s, mutation %s at /%s; the implementation answered %s)" % (
             verdict.replace("BAD:", ""), _unhex(f[1]), _unhex(f[2]), f[3], "/".join(_path(f[4])), obs[:60])
@@ -78,11 +83,11 @@ def run(ctx):
         rule=("non-trivial: base cases (valid configuration decoded, defaults and discard_overflow checked), and every "
               "mutation case on which the specification constrains the outcome (unknown key at a strict path, wrongly "
               "typed value, value violating its validate tag, missing required value, placeholder, unresolved "
-              "placeholder); direct cases of the header-list decoder, of the property-file reader and of the environment resolver; rel cases whose section violates a relation between options; ptype / pht cases; app cases on which at least one "
+              "placeholder); direct cases of the header-list decoder, of the property-file reader, of the environment resolver and of a placeholder at an integer option of every width (cast); phc cases whose text neither the literal reader nor the text hook of the option takes; rel cases whose section violates a relation between options; ptype / pht cases; app cases on which at least one "
               "held option is judged against the written section and the registered default; distinct = distinct case lines"),
         key_fn=key_fn, what_fn=what_fn,
         translators=[("schema", "ConfigSchemaGen.v")],
-        bridge_files=["Gen/ConfigSchema_bridge.v", "Gen/ConfigApplied_bridge.v", "Properties/C17_depth.v", "Properties/C17_ctor.v", "Properties/C17_applied.v", "Properties/C17_rel.v"],
+        bridge_files=["Gen/ConfigSchema_bridge.v", "Gen/ConfigApplied_bridge.v", "Properties/C17_depth.v", "Properties/C17_ctor.v", "Properties/C17_applied.v", "Properties/C17_rel.v", "Properties/C17_cast.v"],
         trusted=[
             "translator harness/cmd/translate schema (reflection over the real plugin registry after the CLI's imports; package harness/internal/a16schema)",
             "verif hooks in /repo: core/plugin/verif_schema.go (read-only registry listing), cli/verif_export.go (exports readConfig)",
@@ -91,7 +96,7 @@ def run(ctx):
             "the reflection search for held configurations and the table of constructor-derived options (harness/internal/a16schema/applied.go FindHeld / RulesFor / ctorDerived); tied by the `app` correspondence run",
             "the table of constructor-enforced constraints in harness/internal/a16schema/reflect.go ctorConstraint (which option of which Go config type a constructor checks: http provider Headers); tied by the correspondence run on every component carrying it",
             "the table of relations between options enforced by constructors in harness/internal/a16schema/reflect.go ctorRelations (per interface + registered name + Go config type: file / uris / decoder of the http providers); tied by the `rel` correspondence cases on all five providers and pinned by Gen/ConfigSchema_bridge.v",
-            "oracles (Section variables; answered per case by the real libraries through the harness): the entries of the environment (the lookup itself is modelled: env_of_list), the bytes of the property files (the reader itself is modelled), time.ParseDuration, datasize, zapcore.Level.UnmarshalText, strconv.ParseInt/ParseFloat, endpoint/url-path validators",
+            "oracles (Section variables; answered per case by the real libraries through the harness): the entries of the environment (the lookup itself is modelled: env_of_list), the bytes of the property files (the reader itself is modelled), time.ParseDuration, datasize, zapcore.Level.UnmarshalText, strconv.ParseFloat, endpoint/url-path validators; strconv.ParseInt(s, 0, bits) is no longer an oracle of the driver (modelled: Model/ConfigIntLiteral.v parse_int; the answers of the real strconv travel in the case line and are compared with the modelled reader on every text the decoder asks about)",
             "modelled, not verified: mapstructure's decoding rules, validator.v9's tag semantics, the regexp of confutil.findTags (hand-written scanner), viper/YAML reading; component constructors are not modelled (bases are calibrated to construct)",
         ],
         assumptions=["mapstructure v1.5.1, validator.v9 and viper behave as modelled (exercised by the correspondence run)",
